@@ -155,13 +155,29 @@ def thread_returns(caller, ret_local, dest, cont, first_new, path):
     cb = blocks[cont]
     # what does the continuation branch on?
     t = cb["term"]
+    try_call = None
+    if t["k"] == "call" and t.get("callee") == "std::ops::Try::branch" and isinstance(t.get("t"), int) and not [x for x in cb["stmts"] if x["k"] == "assign"]:
+        # `helper(..)?`: the continuation hands the result to Try::branch and the block after that switches on the
+        # ControlFlow it returns (Ok/Some -> Continue = 0, Err/None -> Break = 1)
+        a0 = t["args"][0].get("move") or t["args"][0].get("copy")
+        nb2 = blocks[t["t"]]
+        as2 = [x for x in nb2["stmts"] if x["k"] == "assign"]
+        sty = t.get("self_ty") or ""
+        if (a0 and a0["l"] == dest["l"] and not a0["p"] and not dest["p"] and nb2["term"]["k"] == "switch" and len(as2) == 1 and as2[0]["rv"]["k"] == "discr"
+                and as2[0]["rv"]["place"]["l"] == t["dest"]["l"] and not as2[0]["rv"]["place"]["p"]
+                and (nb2["term"]["d"].get("move") or nb2["term"]["d"].get("copy") or {}).get("l") == as2[0]["place"]["l"]
+                and sty.startswith(("std::result::Result", "core::result::Result", "std::option::Option", "core::option::Option"))):
+            try_call = (t, nb2, {0: 0, 1: 1} if "Result" in sty.split("<")[0] else {0: 1, 1: 0})
+            t = nb2["term"]
     if t["k"] != "switch":
         return 0
     dpl = t["d"].get("move") or t["d"].get("copy")
     if dpl is None or dpl["p"]:
         return 0
     mode = None
-    if dpl["l"] == dest["l"] and not dest["p"] and not [x for x in cb["stmts"] if x["k"] == "assign"]:
+    if try_call is not None:
+        mode = "discr"
+    elif dpl["l"] == dest["l"] and not dest["p"] and not [x for x in cb["stmts"] if x["k"] == "assign"]:
         mode = "bool"
     else:
         as_ = [x for x in cb["stmts"] if x["k"] == "assign"]
@@ -226,7 +242,13 @@ def thread_returns(caller, ret_local, dest, cont, first_new, path):
             prev = new_i
         last = blocks[prev]
         last["stmts"] += copy.deepcopy(cb["stmts"])
-        last["term"] = {"k": "goto", "t": arm_for(val)}
+        if try_call is not None:
+            call_t, nb2, vmap = try_call
+            blocks.append({"cleanup": False, "inl": path, "stmts": copy.deepcopy(nb2["stmts"]), "term": {"k": "goto", "t": arm_for(vmap.get(val, val))}})
+            last["term"] = copy.deepcopy(call_t)
+            last["term"]["t"] = len(blocks) - 1
+        else:
+            last["term"] = {"k": "goto", "t": arm_for(val)}
         n += 1
     return n
 
